@@ -235,19 +235,20 @@ func TestTriageHPACKOrderBehindBlockedData(t *testing.T) {
 	}
 }
 
-// F15 / C10.R3: the state after a direction's writer goroutine has returned (its
-// relayFrames ended): the peer's reader applies a WINDOW_UPDATE that makes more
-// than outputChannelSize queued frames eligible.
+// F15 / C10.R3: a direction has ended (its relayFrames returned, so its writer goroutine is
+// gone); the peer's reader then applies a WINDOW_UPDATE that makes more than outputChannelSize
+// queued frames eligible.
 func TestTriageEmitBlocksUnderLockAfterWriterExit(t *testing.T) {
 	dbg := false
 	var wire bytes.Buffer
-	var in bytes.Buffer
-	r := newRelay(ServerToClient, "s", "c", http2.NewFramer(io.Discard, &in), http2.NewFramer(&wire, &wire), &dbg)
+	r := newRelay(ServerToClient, "s", "c", http2.NewFramer(io.Discard, bytes.NewReader(nil)), http2.NewFramer(&wire, &wire), &dbg)
+	if err := r.relayFrames(make(chan bool)); err != nil { // the source is at EOF: returns at once
+		t.Fatal(err)
+	}
 	r.updateInitialWindowSize(0)
 	for i := 0; i < outputChannelSize+5; i++ {
 		r.data(1, []byte("x"), false) // queued behind the closed stream window
 	}
-	// nobody consumes r.output any more (the writer goroutine ended with relayFrames)
 	done := make(chan bool)
 	go func() {
 		r.updateWindow(&http2.WindowUpdateFrame{FrameHeader: http2.FrameHeader{StreamID: 1}, Increment: 1000})
